@@ -491,6 +491,7 @@ def check_scope_core(check, an: Analysis, rule: str = 'scope', skip=()):
     c04.check_scope_state_private(check, an, rule)
     if 'task-close' not in skip:
         c04.check_task_close(check, an, rule)
+        c04.check_payload_opaque(check, an, rule)
     if 'until' not in skip:
         check_until_core(check, an, rule)
 
